@@ -256,6 +256,15 @@ func c20Scenario() (choice.Scenario, func() any) {
 			open = append(open, "shape="+sh)
 		case "reversed":
 			arr.Items = []*mcbor.Node{items[3], items[2], items[1], items[0]}
+			// the element classes were named for the positions they no longer are in: if the reversed array happens to be
+			// a strict COSE_Sign1 again (an empty byte string first, a map second, byte strings holding a map and
+			// anything last), the statement does not rule it out; whether its "payload" decodes as claims is open
+			if v, perr := viewSign1(mcbor.Encode(mcbor.Tg(18, arr))); perr == nil && len(v.strict) == 0 {
+				if pn, perr := mcbor.DecodeAll(v.payload); perr == nil && pn.K == mcbor.Map {
+					bad, open = nil, []string{"shape=reversed-and-strict-again"}
+					break
+				}
+			}
 			bad = append(bad, "shape="+sh)
 		case "swap-payload-sig":
 			arr.Items = []*mcbor.Node{items[0], items[1], items[3], items[2]}
